@@ -219,6 +219,32 @@ def write_project(root, spec, mtime_ns=None):
 
 # ---------------------------------------------------------------- exported names (approximate, for request generation)
 
+def origins(spec):
+    """module name -> {exported name: module in which the name is really defined}."""
+    out = {}
+    for m in spec['modules']:
+        o = {}
+        for it in m['items']:
+            k = it[0]
+            if k == 'from':
+                tgt = it[1]
+                if tgt.startswith('.'):
+                    tgt = m['name'].rpartition('.')[0] + tgt
+                o[it[3] or it[2]] = out.get(tgt, {}).get(it[2], tgt)
+            elif k == 'star':
+                for n, src in out.get(it[1], {}).items():
+                    if not n.startswith('_'):
+                        o[n] = src
+            elif k == 'import':
+                o[it[2] or it[1].partition('.')[0]] = it[1]
+            elif k == 'tryimport':
+                o[it[1]] = it[1]
+            elif k in ('class', 'func', 'assign', 'multi'):
+                o[it[1]] = m['name']
+        out[m['name']] = o
+    return out
+
+
 def exports(spec):
     """module name -> list of (name, kind); kind in module/class/func/inst/multi/var.  Follows from- and
     star-imports through the DAG.  Only used to aim requests at interesting places."""
@@ -268,7 +294,7 @@ def _pos_after(source):
     return [len(lines), len(lines[-1])]
 
 
-def gen_request(rng, spec, kinds=('assist', 'location', 'lint'), uid=None, target=None):
+def gen_request(rng, spec, kinds=('assist', 'location', 'lint'), uid=None, target=None, origin=None):
     """One request {kind, source, position, file} that reaches project modules through imports.
     `file` is relative to the project root.  `uid`: text made part of the source so that the request
     (and its correct reply) is unique.  `target`: module name the request should reach (default: seeded)."""
@@ -282,6 +308,18 @@ def gen_request(rng, spec, kinds=('assist', 'location', 'lint'), uid=None, targe
     mname = m['name']
     ex = table[mname]
     name, nkind = rng.choice(ex)
+    indirect = False
+    if origin is not None:
+        # aim at a name that is defined in module `origin` but reached through another, importing module
+        org = origins(spec)
+        cands = [(x['name'], n) for x in mods for n, src in org.get(x['name'], {}).items()
+                 if src == origin and x['name'] != origin]
+        if cands and rng.random() < 0.8:
+            indirect = True
+            mname, name = rng.choice(cands)
+            m = next(x for x in mods if x['name'] == mname)
+            ex = table[mname]
+            nkind = dict(ex).get(name, 'var')
     kind = rng.choice(kinds)
     filename = 'zqmain.py'
     head = []
@@ -374,7 +412,7 @@ def gen_request(rng, spec, kinds=('assist', 'location', 'lint'), uid=None, targe
             body.append('import os')
         source = '\n'.join(body) + '\n'
         pos = None
-    return {'kind': kind, 'source': source, 'position': pos, 'file': filename}
+    return {'kind': kind, 'source': source, 'position': pos, 'file': filename, 'indirect': indirect}
 
 
 def mutate_module(rng, spec, idx):
